@@ -473,6 +473,25 @@ pub fn gen(tier: &str, rng: &mut Rng, out: &mut Vec<String>) {
             }
         }
     }
+    // amounts: enough individually legal amounts in ONE transaction to carry an i64 sum past its range (validate() is reached
+    // from Message::read for cmpctblock; a total compared only after the loop would overflow), and the same sum spread over
+    // several transactions
+    {
+        let magic = Network::BSV_Mainnet.magic();
+        let mg = hex::encode(magic);
+        let k0 = (i64::MAX / MAX_SATOSHIS) as usize;
+        let mk = |n: usize| Tx { version: 1, inputs: vec![TxIn { prev_output: OutPoint { hash: chain_gang::util::Hash256([3; 32]), index: 0 }, unlock_script: chain_gang::script::Script(vec![]), sequence: 0 }],
+                                 outputs: (0..n).map(|_| TxOut { satoshis: MAX_SATOSHIS, lock_script: chain_gang::script::Script(vec![]) }).collect(), lock_time: 0 };
+        for k in [k0, k0 + 1, k0 + 2] {
+            let mut c = Cmpctblock::default(); c.prefilledtxn.push(Default::default()); c.prefilledtxn[0].tx = mk(k);
+            let msgs = vec![Message::Cmpctblock(c), Message::Blocktxn(Blocktxn { blockhash: chain_gang::util::Hash256([4; 32]), transactions: vec![mk(k)] }), Message::Tx(mk(k))];
+            for m in msgs { let mut v = Vec::new(); if m.write(&mut v, magic).is_ok() { reqs.push(format!("c06.msg {} {}", mg, hexd(&v))); } }
+        }
+        let mut c = Cmpctblock::default();
+        for i in 0..3 { c.prefilledtxn.push(Default::default()); c.prefilledtxn[i].index = i as u64; c.prefilledtxn[i].tx = mk(1); }
+        let mut v = Vec::new(); if Message::Cmpctblock(c).write(&mut v, magic).is_ok() { reqs.push(format!("c06.msg {} {}", mg, hexd(&v))); }
+        let mut v = Vec::new(); if Message::Blocktxn(Blocktxn { blockhash: chain_gang::util::Hash256([4; 32]), transactions: vec![mk(1), mk(1), mk(1)] }).write(&mut v, magic).is_ok() { reqs.push(format!("c06.msg {} {}", mg, hexd(&v))); }
+    }
     // random payloads under every command, framed; random strings as whole messages
     let magic = Network::BSV_Mainnet.magic();
     let mg = hex::encode(magic);
